@@ -454,10 +454,13 @@ def items():
             Hole("token_reference.leading_trivia().collect()", "verif::lead_refs(token_reference)", kind="wrapper", why="impl Iterator::collect"),
             Hole("token_reference.trailing_trivia().collect()", "verif::trail_refs(token_reference)", kind="wrapper", why="impl Iterator::collect"),
         ]),
+        Fn(TU, "trivia_is_newline", mode="stub", note="str::find on the characters of a whitespace token; only chooses between the wanted symbol's own whitespace and an indent"),
         Fn(GEN, "format_symbol", contract="""
     ensures
         tr_token(r) == tr_token(*wanted_symbol), //# C02.symbol_token
-        exists|l: Seq<Token>| #[trigger] load_post(ctx.config, lead(*current_symbol), FormatTokenType::LeadingTrivia, l) && lead(r) == l + lead(*wanted_symbol), //# C03.symbol_leading
+        // (a symbol that comments have put onto a new line is indented instead of getting the wanted symbol's own leading whitespace)
+        exists|l: Seq<Token>| #[trigger] load_post(ctx.config, lead(*current_symbol), FormatTokenType::LeadingTrivia, l)
+            && (lead(r) == l + lead(*wanted_symbol) || (lead(r).len() == l.len() + 1 && lead(r).take(l.len() as int) == l && is_indent_for(lead(r).last(), ctx.config) && token_type_of(lead(r).last()) is Whitespace)), //# C03.symbol_leading
         exists|t: Seq<Token>| #[trigger] load_post(ctx.config, trail(*current_symbol), FormatTokenType::TrailingTrivia, t) && trail(r) == trail(*wanted_symbol) + t, //# C03.symbol_trailing
         has_line_comment(trail(r)) ==> has_line_comment(trail(*current_symbol)) || has_line_comment(trail(*wanted_symbol)), //# C01.symbol_open_only_if_source
 """, edits=[
